@@ -23,8 +23,8 @@ def _prims():
 class Built(object):
     """live classes for one universe spec"""
 
-    def __init__(self, U):
-        from spyne.model.complex import ComplexModel, ComplexModelMeta
+    def __init__(self, U, hold=()):
+        """hold: names of classes that are declared later, by declare(name)"""
         from spyne.model.enum import Enum
         self.U = U
         self.prims = _prims()
@@ -37,12 +37,19 @@ class Built(object):
             en.__namespace__ = e["ns"]
             self.enums[e["name"]] = en
         for c in U["classes"]:
-            base = ComplexModel if c["extends"] is None else self.classes[c["extends"]]
-            ti = [(fn, self.type_of(t)) for fn, t in c["fields"]]
-            d = {"__namespace__": c["ns"], "_type_info": ti}
-            if c.get("type_name"):
-                d["__type_name__"] = c["type_name"]
-            self.classes[c["name"]] = ComplexModelMeta(c["name"], (base,), d)
+            if c["name"] not in hold:
+                self.declare(c["name"])
+
+    def declare(self, name):
+        from spyne.model.complex import ComplexModel, ComplexModelMeta
+        c = self.cspec[name]
+        base = ComplexModel if c["extends"] is None else self.classes[c["extends"]]
+        ti = [(fn, self.type_of(t)) for fn, t in c["fields"]]
+        d = {"__namespace__": c["ns"], "_type_info": ti}
+        if c.get("type_name"):
+            d["__type_name__"] = c["type_name"]
+        self.classes[c["name"]] = ComplexModelMeta(c["name"], (base,), d)
+        return self.classes[c["name"]]
 
     # ------------------------------------------------------------------
     def base_type(self, t):
